@@ -829,7 +829,7 @@ def _compare(rec, R, callno, exp, direct, got, injected):
                            invocations=len(got['log']), fired=got['fired'], warnings=[w[:200] for w in got['warnings']],
                            attempts=got['attempts'], cache=got['cache'], stdout=got['out'][:200]),
              direct=dict(result=repr(direct['res'])[:300], exception=repr(direct['exc'])[:300], stdout=direct['out'][:200]))
-    return dict(signature=sig, what='[%s] call %d: %s' % (clause, callno, what), witness=w)
+    return dict(signature=sig, what='[%s] call %d%s: %s' % (clause, callno, ' (made by a converted call site)' if rec.get('_generated') else '', what), witness=w)
 
   # 1. errors
   oc = _exc_class(got['exc'])
